@@ -550,7 +550,7 @@ class OptimalPauliCompiler:
                 and str(_left_part(res, self.k)) == str(V)
                 and str(_right_part(res, self.k)) == str(W)):
                     return _sequence_to_paulie_orientation(G)
-            return _sequence_to_paulie_orientation(list(Gp) + [self.extend_left(a) for a in seq])
+            raise RuntimeError("No verified sequence found for V != I.")
         Aset = left_a_minimal(self.k)
         for W1, W2 in self._candidate_decompositions(W):
             G1 = self.sub.subsystem_compiler(W1)
@@ -576,7 +576,12 @@ class OptimalPauliCompiler:
         V2p = self._left_factor_from_sequence(G2)
         Aseq = left_map_over_a(V2p, V1p, left_a_minimal(self.k))
         Aext = [self.extend_left(a) for a in Aseq]
-        return _sequence_to_paulie_orientation(list(reversed(G1)) + Aext + list(reversed(G2)))
+        seq = list(reversed(G1)) + Aext + list(reversed(G2))
+        res = _nested_commutator_result(seq)
+        if (res is not None and _left_part(res, self.k).is_identity()
+        and str(_right_part(res, self.k)) == str(W)):
+            return _sequence_to_paulie_orientation(seq)
+        raise RuntimeError("No verified sequence found for V = I.")
 
 
 def construct_universal_set(n_total: int, k: int) -> list[PauliString]:
